@@ -23,7 +23,7 @@ func main() {
 		persist = os.Args[2]
 	}
 	// memory bound: a command must not be able to take the machine down
-	lim := uint64(4) << 30
+	lim := uint64(8) << 30
 	syscall.Setrlimit(syscall.RLIMIT_AS, &syscall.Rlimit{Cur: lim, Max: lim})
 	e, err := redisemu.NewEmulator(lane.NewNullLane(nil), port, "127.0.0.1", persist, nil)
 	if err != nil {
